@@ -376,6 +376,35 @@ func mergedHeadsDeps(c *Ctx, r *Report, rule string, join *Fn) {
 					fromEntries = p.Pos(y.Pos())
 				}
 			}
+			// … on every path: each alternative the candidate set is chosen from contains the destination's heads
+			var alts func(v ssa.Value, depth int) []ssa.Value
+			alts = func(v ssa.Value, depth int) []ssa.Value {
+				if ph, ok := v.(*ssa.Phi); ok && depth < 4 {
+					var out []ssa.Value
+					for _, e := range ph.Edges {
+						out = append(out, alts(e, depth+1)...)
+					}
+					return out
+				}
+				return []ssa.Value{v}
+			}
+			for i, alt := range alts(call.Call.Args[0], 0) {
+				hasOwn := false
+				for y := range backSlice(alt, nil) {
+					if u, ok := y.(*ssa.UnOp); ok && u.Op == token.MUL {
+						if f, _ := fieldOf(u.X); f == headsF {
+							hasOwn = true
+						}
+					}
+				}
+				pos := alt.Pos()
+				if !pos.IsValid() {
+					pos = call.Pos()
+				}
+				r.Check(hasOwn, rule, r.Key(rule, join, "head-candidates-own", fmt.Sprint(i)), pos,
+					"this choice of candidates for the merged heads contains the destination's own heads",
+					"on one path the candidate set handed to the head scan is built without the destination's heads: whatever the destination held beside the merged entries stops being a head — it is referenced by nothing and no later append names it, so a manifest written from the heads no longer reaches it")
+			}
 			r.Check(fromEntries == "", rule, r.Key(rule, join, "head-candidates", ""), call.Pos(),
 				"the candidates for the merged heads are the two head sets",
 				"the candidate set handed to the head scan is built from the source's entry index (read at "+fromEntries+") instead of its heads: the index can be newer than the heads that were read, so entries that were merged and are unreferenced end up outside the heads (or the log is left with no heads at all)")
